@@ -30,7 +30,7 @@ def run_case(case, strict=False):  # pylint: disable=unused-argument
     tr = core.run(case)
     findings = asserts.c01(tr)
     cl, nontrivial = asserts.classes(tr, case)
-    return findings, {"nontrivial": nontrivial, "classes": sorted(cl), "truncated": tr.truncated,
+    return findings, {"nontrivial": nontrivial, "classes": sorted(cl), "truncated": tr.truncated, "excluded_known": case.get("meta", {}).get("excluded_known", 0),
                       "sample": {"regions": case["regions"], "config": case["config"],
                                  "prog": [i[1] if i[0] == "g" else i for i in case["prog"]]}}
 
